@@ -19,7 +19,7 @@ for d in sorted(glob.glob(os.path.join(HERE, "seeded", "*"))):
     elif res is None:
         caught, ran = "(not run)", ""
     else:
-        caught = ", ".join(res.get("caught_by", [])) or "-"
+        caught = ", ".join(res.get("caught_by", [])) or ("- (not judged: see meta.json)" if meta.get("not_judged") else "-")
         ran = "%d checks, %s" % (len(res.get("results", {})), res.get("tier"))
     title = ""
     if os.path.exists(os.path.join(d, "notes.md")):
